@@ -10,6 +10,7 @@ import FBV.Drv.T1
 import FBV.Drv.DF
 import FBV.Drv.ES
 import FBV.Drv.AD
+import FBV.Drv.RF
 open FBV FBV.Wire
 
 structure Tally where
@@ -38,6 +39,8 @@ def checkLine (oc : Bool) (line : String) : Option (List String × String) :=
     (FBV.DrvAD.checkCB pre impl std).map fun (v, nt) => (v, if nt then "cb_nontrivial" else "cb_trivial")
   | [("TK" :: pre), impl, std] =>
     (FBV.DrvAD.checkTK oc pre impl std).map fun (v, nt) => (v, if nt then "tk_nontrivial" else "tk_trivial")
+  | [("RF" :: pre), impl] =>
+    (FBV.DrvRF.check oc pre impl).map fun (v, nt) => (v, if nt then "rf_nontrivial" else "rf_trivial")
   | [("T0" :: pre), post] => (FBV.DrvT1.checkT0 pre post).map fun v => (v, "t0")
   | _ => none
 
